@@ -113,14 +113,14 @@ def run(rep: Report, tier: str, only=None) -> None:
 	rep.cpu = stats['solver_s']
 	rep.replays = stats['replayed'] + stats['witnesses_checked']
 	rep.functions = ['Py2Cpp.transpile (complete pipeline: Modules.load, Reflections, Py2Cpp.on_* handlers, Renderer + data/cpp/template/**/*.j2) run concretely per program', 'emitted C++ encoded by tv/fronts.py + tv/sem.py']
-	rep.bounds = {'programs': f'{stats["programs"]} generated functions (tier {tier}, seed {seed}): operator pairs exhaustively, sampled / all triples, unary, boolean, ternary, parenthesised, statement, call and list templates', 'inputs': 'three ints in [-2^15, 2^15) and one bool, symbolic; list programs: a list[int] of symbolic length <= 3 with symbolic elements in [-2^15, 2^15), two ints, one bool', 'loops': 'unrolled 6 times with unwinding assumption', 'lists': 'bounded model of capacity 4 (length term + 4 element terms); appends beyond the capacity are outside (premise)'}
+	rep.bounds = {'programs': f'{stats["programs"]} generated functions (tier {tier}, seed {seed}): operator pairs exhaustively, sampled / all triples, unary, boolean, ternary, parenthesised, statement, call, list and class templates', 'inputs': 'three ints in [-2^15, 2^15) and one bool, symbolic; list programs: a list[int] of symbolic length <= 3 with symbolic elements in [-2^15, 2^15), two ints, one bool', 'loops': 'unrolled 6 times with unwinding assumption', 'lists': 'bounded model of capacity 4 (length term + 4 element terms); appends beyond the capacity are outside (premise)'}
 	rep.assumptions = [
 		'premises of the property collected from the Python side: every intermediate fits a C++ int, % and shifts on non-negative operands (shift < 31), no division, loops exit within the unrolling, list indices inside [-len, len) (an IndexError is outside the agreement region)',
 		'a difference inside the trigger region of a listed finding class (conditions collected by the machines: non-negative index, no continue inside an enumerate body, non-negative operands next to a std::size_t, no assignment to a range-for variable) is re-solved with those regions excluded: unsat -> attributed to the class (KNOWN-FINDING), sat -> the remaining difference is reported',
 		'C++ semantics of the emitted subset as implemented in tv/sem.py + tv/fronts.py (precedence table, bool/int conversions at declarations, conditions and operands); validated on every run by compiling solver-chosen witnesses with g++ and comparing',
 		'programs = bounded enumeration of shapes; inputs = solver verdict',
 	]
-	rep.outside = ['strings, dicts, tuples, classes, enums, closures, try/except, floats, lists of anything but int, list slices / methods other than append, lists as return values, mutation of list parameters', 'tree-grouping errors that leave the flat text unchanged (C02)', 'programs outside the generated shapes']
+	rep.outside = ['strings, dicts, tuples, classes beyond int / bool fields with single inheritance, enums, closures, try/except, floats, lists of anything but int, list slices / methods other than append, lists as return values, mutation of list parameters', 'tree-grouping errors that leave the flat text unchanged (C02)', 'programs outside the generated shapes']
 	rep.extra.update({'programs': stats['programs'], 'disagreements_checked': stats['replayed'], 'equivalent': stats['unsat'], 'differing': stats['sat'], 'rejected_by_transpiler': stats['rejected'], 'outside_encodable_subset': stats['unsupported'],
 		'solver_unknown': stats['unknown'], 'witnesses_validated_with_gpp': stats['witnesses_checked'], 'per_category': per_cat, 'wall_s_transpile_and_solve': round(time.time() - t0, 1),
 		'trusted_base': ['z3 5.1.0', 'tv/sem.py + tv/fronts.py C++ subset semantics (validated against g++ on witnesses each run)', 'CPython ast', 'g++ -std=c++20 for replays']})
